@@ -503,7 +503,79 @@ def canonJudge : Judge := liftJudge fun input obs => do
          sig := if !credOK then "signer:accepted-unknown-credential" else if !complete then "signer:valid-signature-rejected" else if !sound then (if tampered.queryErr && optBool obs "tamper_ok" then "signer:unparsed-query-not-covered" else "signer:tamper-accepted:" ++ kind) else "",
          note := note }
 
-def judges : List (String × Judge) := [("validator", validatorJudge), ("canon", canonJudge)]
+/-! ## basichist: Basic credentials across generations of the filter -/
+
+def pairsOf (j : Json) (k : String) : UserTable :=
+  (arrOf j k).toList.filterMap fun e =>
+    match e.getArr? with
+    | .ok xs => match xs.toList.map (fun x => (x.getStr?).toOption.getD "") with
+      | u :: pw :: _ => some (sb u, sb pw)
+      | _ => none
+    | .error _ => none
+
+/-- walk the history: `(table, judgeable)`; `judgeable = false` while the last update is not (yet) visible although the
+current generation's cache is alive (`inconclusive`: no verdict from wall-clock luck) -/
+def basicHistJudge : Judge := liftJudge fun input obs => do
+  match obsPanic obs with
+  | some m => pure { agree := false, spec := false, sig := "panic:harness", note := m }
+  | none =>
+  if optStr obs "error" ≠ "" then
+    return { agree := true, spec := true, nontrivial := false, tags := ["harness-error:" ++ optStr obs "error"] }
+  let ops := (arrOf input "ops").toList
+  let steps := (arrOf obs "steps").toList
+  let mode := optStr input "mode"
+  let mut table : UserTable := pairsOf input "users"
+  let mut judgeable := true
+  let mut bad : Option (String × String) := none
+  let mut disagree : Option String := none
+  let mut nInh : Nat := 0
+  let mut nUpd : Nat := 0
+  let mut nReq : Nat := 0
+  let mut nInc : Nat := 0
+  let mut sawAfter := false
+  let mut deadSeen := false
+  for (op, st) in ops.zip steps do
+    if optStr st "panic" ≠ "" && bad.isNone then
+      bad := some ("panic:basichist:" ++ optStr op "k", optStr st "panic")
+    match optStr op "k" with
+    | "inherit" =>
+      nInh := nInh + 1
+      -- the generation that was closed must not take the new generation's cache with it
+      if !optBool st "alive" then deadSeen := true
+    | "update" =>
+      nUpd := nUpd + 1
+      table := pairsOf op "users"
+      judgeable := optBool st "visible" || !optBool st "alive"
+      if !optBool st "alive" then deadSeen := true
+    | "req" =>
+      -- two entries for one user: which one wins is unspecified in ETCD mode (map order): not judged
+      let dup := (table.filter (·.1 == optBytes op "u")).length > 1
+      if !judgeable || dup then nInc := nInc + 1
+      else
+        nReq := nReq + 1
+        if nInh > 0 && nUpd > 0 then sawAfter := true
+        let u := optBytes op "u"
+        let p := optBytes op "p"
+        -- model = spec (`basic_history_current_table`): answered from the current table
+        let want := tableMatch table u p
+        let got := optStr st "result" == ""
+        let okShape := if got then optBytes st "auth_user" == u
+          else optStr st "result" == "invalid" && (getNat st "status").toOption.getD 0 == 401
+        if got != want && bad.isNone then
+          bad := some ((if !optBool st "alive" then "basic:stale-user-table-after-inherit:" else "basic:wrong-user-table:")
+            ++ (if got then "accepted-" else "rejected-") ++ mode.toLower, s!"user {bs u}: got accepted={got}, current table says {want}")
+        else if !okShape && disagree.isNone then
+          disagree := some s!"user {bs u}: outcome shape (status / X-AUTH-USER)"
+    | _ => pure ()
+  let tags := ["mode:" ++ mode, s!"inherits:{min nInh 3}", s!"updates:{min nUpd 3}"] ++ (if nInc > 0 then ["inconclusive-requests"] else [])
+    ++ (if deadSeen then ["current-generation-cache-dead"] else [])
+  pure { agree := bad.isNone && disagree.isNone, spec := bad.isNone,
+         expected := Json.mkObj [("judged_requests", nReq), ("inconclusive", nInc)],
+         tags := tags, nontrivial := sawAfter,
+         sig := match bad with | some b => b.1 | none => "",
+         note := match bad, disagree with | some b, _ => b.2 | none, some d => "disagree: " ++ d | none, none => "" }
+
+def judges : List (String × Judge) := [("validator", validatorJudge), ("canon", canonJudge), ("basichist", basicHistJudge)]
 
 end Driver.C06
 
